@@ -31,7 +31,7 @@ for d in sorted(glob.glob(os.path.join(V, "seeded", "C*-*"))):
 import queue
 wts = queue.Queue()
 for i in range(J):
-    wt = f"/tmp/mut_rerun_{i}"
+    wt = f"/tmp/mut_rerun_{os.getpid()}_{i}"      # private to this invocation: several may run at once
     sh(f"git -C /repo worktree remove --force {wt}; rm -rf {wt}; git -C /repo worktree add -q --detach {wt} main")
     wts.put(wt)
 
